@@ -28,6 +28,9 @@ CircuitsMedium ==
 CircuitsBig ==
   { [kind |-> "Histogram", len |-> 130, chunk |-> 12], [kind |-> "SumVec", max |-> 1, len |-> 140, chunk |-> 13],
     [kind |-> "Multihot", len |-> 126, maxw |-> 3, chunk |-> 10], [kind |-> "L1BoundSum", max |-> 3, len |-> 64, chunk |-> 11] }
+\* very long inputs (several 256-element blocks) for the Prio3 traces
+CircuitsHuge ==
+  { [kind |-> "Histogram", len |-> 530, chunk |-> 90], [kind |-> "SumVec", max |-> 1, len |-> 600, chunk |-> 100] }
 Circuits == IF P = 17 THEN CircuitsSmall ELSE CircuitsMedium
 
 SeqsLE(len, max, bound) == {m \in [1..len -> 0..max] : SeqSumInt(m) <= bound}
@@ -42,7 +45,7 @@ Meas(c) ==
     [] c.kind = "Sum" -> Wrap(IF c.max <= 8 THEN 0..c.max ELSE {0, 1, c.max \div 2, Pow2(Bits(c.max) - 1) - 1, Pow2(Bits(c.max) - 1), c.max - 1, c.max})
     [] c.kind = "SumVec" -> IF c.len * Bits(c.max) <= 4 THEN [1..c.len -> 0..c.max]
                             ELSE {[i \in 1..c.len |-> (a * i + b) % (c.max + 1)] : a \in {0, 1, 3}, b \in {0, c.max}}
-    [] c.kind = "Histogram" -> Wrap(0..(c.len - 1))
+    [] c.kind = "Histogram" -> Wrap(IF c.len <= 200 THEN 0..(c.len - 1) ELSE {0, 1, 255, 256, 257, 511, 512, c.len - 1})
     [] c.kind = "Multihot" -> IF c.len <= 3 THEN SeqsLE(c.len, 1, c.maxw)
                               ELSE {[i \in 1..c.len |-> IF i \in S THEN 1 ELSE 0] : S \in {{}, {1}, {c.len}, {2, 3}, {1, 2, c.len}}}
     [] c.kind = "L1BoundSum" -> IF c.len <= 2 THEN SeqsLE(c.len, c.max, c.max)
@@ -86,6 +89,7 @@ Probes(c) ==
     ok |-> QueryDefined(c, nat(InputLen(c) + a), nat(ProofLen(c) + b), nat(QueryRandLen(c) + d), nat(JointRandLen(c) + e))] : a \in Deltas, b \in Deltas, d \in Deltas, e \in Deltas}
   \cup {[op |-> "decide", lens |-> <<nat(VerifierLen(c) + a)>>, ok |-> DecideDefined(c, nat(VerifierLen(c) + a))] : a \in {-1, 0, 1, 2}}
 InitEncBig == st \in UNION {{[ph |-> "enc", c |-> c, m |-> m] : m \in Meas(c)} : c \in CircuitsBig}
+InitEncHuge == st \in UNION {{[ph |-> "enc", c |-> c, m |-> m] : m \in Meas(c)} : c \in CircuitsHuge}
 InitProbe == st \in {[ph |-> "probe", c |-> c] : c \in Circuits}
 
 \* a completed run: everything the FLP computes, evaluated once and stored in the state
